@@ -34,7 +34,9 @@ pub fn run_enumeration(which: &str, id: &str, thorough: bool, seed: u64, out: &m
         "stateless-threads" => {
             stateless_threads(seed, thorough, out);
             stress_threads(seed, thorough, out);
-            if thorough || std::env::var("VERIF_MIRI").is_ok() {
+            // (the Miri layer builds its own crate against /repo: once is enough, the second
+            // build of the simulator does not repeat it)
+            if (thorough && cfg!(feature = "hooks")) || std::env::var("VERIF_MIRI").is_ok() {
                 miri_threads(seed, out);
             }
         },
